@@ -120,6 +120,11 @@ func c19One(c *ev.Ctx, cs ev.Case) {
 		}
 		pr := rng(c, cs.Idx+7<<20) // same geometry for both sentinel fills
 		try(how+"/fill=00", img.Place(pr, base, how, 0x00), ref)
+		if how == "offset" || how == "negorigin" || how == "subimage" || how == "subimage2" {
+			// the generic At() paths with a non-zero bounds origin: same view behind an opaque wrapper
+			pr = rng(c, cs.Idx+7<<20)
+			try("wrapped-"+how, img.Wrapper{I: img.Place(pr, base, how, 0xa5)}, ref)
+		}
 		if how == "subimage" || how == "subimage2" || how == "stridepad" || how == "longpix" {
 			pr = rng(c, cs.Idx+7<<20)
 			try(how+"/fill=ff", img.Place(pr, base, how, 0xff), ref)
@@ -134,6 +139,14 @@ func c19One(c *ev.Ctx, cs ev.Case) {
 		tref, err := encode(typed, o)
 		if err == nil {
 			try("type="+cc.SrcType+"-vs-wrapper", img.Wrapper{I: typed}, tref)
+		}
+	}
+	// a concrete Go type away from the origin vs the same colours behind a wrapper (even shifts keep
+	// the chroma siting of the subsampled YCbCr types)
+	sh := img.AsType(rng(c, cs.Idx+9<<20), img.Shift(base, 2*(1+tr.Intn(9)), -2*(1+tr.Intn(9))), cc.SrcType)
+	if reflect.TypeOf(sh) != reflect.TypeOf(img.Wrapper{}) {
+		if sref, err := encode(sh, o); err == nil {
+			try("shifted-type="+cc.SrcType+"-vs-wrapper", img.Wrapper{I: sh}, sref)
 		}
 	}
 	if cs.Idx%100 == 0 {
